@@ -27,7 +27,8 @@ From Coq Require Import NArith ZArith List Bool Arith.
 From PLV Require Import Base.PyStr Tok.PState Tok.Tokenizer Parse.Nodes Parse.Parser Parse.ParseWire
                         Gen.GenWalkerCtx.
 From PLV Require Import Proofs.PStateProofs Proofs.ParserModesSpec Proofs.ParserModesDecl
-                        Proofs.ParserModesState Proofs.ParserModes Proofs.ParserModesDollars.
+                        Proofs.ParserModesState Proofs.ParserModes Proofs.ParserModesDollars
+                        Proofs.ParserModesDollarsBounded.
 Import ListNotations.
 
 (** * The specification *)
@@ -149,8 +150,10 @@ Proof. exact math_token_delims_ok. Qed.
         math_nodes (parse strict ctx0 (unparse d)) = math_nodes_of d.
 
     Proved instead: the tokenizer facts that decide how a run of dollar signs
-    is split, for every input and every good state, and the two instances of
-    the property text by evaluation of the whole parser. *)
+    is split, for every input and every good state ([_partial]); the
+    agreement of the whole parser with an independent reading of dollar runs
+    for ALL strings up to a length bound ([C10_dollars_bounded*], the bound is
+    in the statement); the two instances of the property text. *)
 
 (** in math mode the expected closing delimiter is matched BEFORE the
     longest-match table *)
@@ -201,6 +204,31 @@ Example C10_dollars_one_display : forall tol,
              (Some (NList (Some 2) (Some 3) [Some (NChars 2 3 (math_mode (Some [36%N; 36%N])) [97%N])])))]))) 5.
 Proof. intros [|]; vm_compute; reflexivity. Qed.
 
+(** Bounded-exhaustive: ALL strings over {[$], [a]} up to length 14 (and over
+    {[$], [a], [b]} up to length 9), strict and tolerant, default context.
+    [dollar_agrees tol s]: if the independent reading [dollar_ref] of [s]
+    ([$$..$$] display, [$..$] inline, text runs between; [None] if unbalanced
+    or nested) accepts [s], then [parse_top] succeeds and its top-level items
+    are exactly those formulas (kind and contents) and text runs. *)
+Theorem C10_dollars_bounded : forall tol s,
+  length s <= 14 -> Forall (fun c => In c [36; 97]%N) s -> dollar_agrees tol s = true.
+Proof. exact dollars_bounded_2. Qed.
+
+Theorem C10_dollars_bounded_two_letters : forall tol s,
+  length s <= 9 -> Forall (fun c => In c [36; 97; 98]%N) s -> dollar_agrees tol s = true.
+Proof. exact dollars_bounded_3. Qed.
+
+(** the reference reads [$a$$b$] as two inline and [$$a$$] as one display
+    formula, rejects [$a$$], and accepts 485 of the 2047 strings to length 10 *)
+Example C10_dollars_reference_nonvacuous :
+  dollar_ref 7 [36;97;36;36;98;36]%N = Some [(DInline, [97%N]); (DInline, [98%N])]
+  /\ dollar_ref 6 [36;36;97;36;36]%N = Some [(DDisplay, [97%N])]
+  /\ dollar_ref 8 [97;36;36;36;36;98;98]%N = Some [(DChars, [97%N]); (DDisplay, []); (DChars, [98%N; 98%N])]
+  /\ dollar_ref 5 [36;97;36;36]%N = None
+  /\ N.of_nat (length (filter (fun s => match dollar_ref (S (length s)) s with Some _ => true | None => false end)
+                              (enum [36; 97]%N 10))) = 485%N.
+Proof. exact dollar_ref_examples. Qed.
+
 (** * Non-vacuity *)
 
 (** [$a\text{b $c$}$ \begin{equation}x\ensuremath{y}\end{equation}]: math,
@@ -248,6 +276,46 @@ Example C10_spec_discriminates :
   = [true; false].
 Proof. vm_compute. split; reflexivity. Qed.
 
+(** the clauses of the property text that are facts about the DEFAULT context
+    (regenerated from /repo on every run): the argument of the [\text]-like
+    macros is in text mode, the argument of [\ensuremath] in math mode, the
+    bodies of the math environments in math mode; other macros / environments
+    (here [\emph], [\mathrm], [enumerate]) inherit *)
+Example C10_default_context_modes :
+  forallb (fun nm => match arg_deltas (get_macro_spec default_ctx nm) with [ADLeaveMath] => true | _ => false end)
+    [[109;98;111;120]%N;
+     [116;101;120;116;114;109]%N;
+     [116;101;120;116;105;116]%N;
+     [116;101;120;116;98;102]%N;
+     [116;101;120;116;109;100]%N;
+     [116;101;120;116;115;99]%N;
+     [116;101;120;116;115;102]%N;
+     [116;101;120;116;115;108]%N;
+     [116;101;120;116;116;116]%N;
+     [116;101;120;116;117;112]%N;
+     [116;101;120;116]%N] = true
+  /\ arg_deltas (get_macro_spec default_ctx [101;110;115;117;114;101;109;97;116;104]%N) = [ADEnterMath]
+  /\ forallb (fun nm => nmode_eqb (body_mode (get_env_spec default_ctx nm) text_mode) (math_mode None))
+    [[101;113;117;97;116;105;111;110]%N;
+     [101;113;117;97;116;105;111;110;42]%N;
+     [101;113;110;97;114;114;97;121]%N;
+     [101;113;110;97;114;114;97;121;42]%N;
+     [97;108;105;103;110]%N;
+     [97;108;105;103;110;42]%N;
+     [103;97;116;104;101;114]%N;
+     [103;97;116;104;101;114;42]%N;
+     [102;108;97;108;105;103;110]%N;
+     [102;108;97;108;105;103;110;42]%N;
+     [109;117;108;116;108;105;110;101]%N;
+     [109;117;108;116;108;105;110;101;42]%N;
+     [97;108;105;103;110;97;116]%N;
+     [97;108;105;103;110;97;116;42]%N;
+     [115;112;108;105;116]%N] = true
+  /\ arg_deltas (get_macro_spec default_ctx [101;109;112;104]%N) = [ADNone]
+  /\ arg_deltas (get_macro_spec default_ctx [109;97;116;104;114;109]%N) = [ADNone]
+  /\ body_mode (get_env_spec default_ctx [101;110;117;109;101;114;97;116;101]%N) text_mode = text_mode.
+Proof. vm_compute. repeat split; reflexivity. Qed.
+
 (** the hypotheses of the token theorem are satisfiable: the state inside
     [$...$] under the default context *)
 Example C10_dollars_token_nonvacuous :
@@ -270,9 +338,13 @@ Print Assumptions C10_math_token.
 Print Assumptions C10_dollars_closing_first_partial.
 Print Assumptions C10_dollars_read_math_partial.
 Print Assumptions C10_dollars_token_partial.
+Print Assumptions C10_dollars_bounded.
+Print Assumptions C10_dollars_bounded_two_letters.
+Print Assumptions C10_dollars_reference_nonvacuous.
 Print Assumptions C10_dollars_two_inline.
 Print Assumptions C10_dollars_one_display.
 Print Assumptions C10_modes_nonvacuous.
 Print Assumptions C10_modes_tolerant_nonvacuous.
 Print Assumptions C10_spec_discriminates.
+Print Assumptions C10_default_context_modes.
 Print Assumptions C10_dollars_token_nonvacuous.
